@@ -245,8 +245,8 @@ func mkExperiment(c Cfg) *experimentsv1beta1.Experiment {
 
 type nopRecorder struct{}
 
-func (nopRecorder) Event(runtime.Object, string, string, string)                    {}
-func (nopRecorder) Eventf(runtime.Object, string, string, string, ...interface{})   {}
+func (nopRecorder) Event(runtime.Object, string, string, string)                  {}
+func (nopRecorder) Eventf(runtime.Object, string, string, string, ...interface{}) {}
 func (nopRecorder) AnnotatedEventf(runtime.Object, map[string]string, string, string, string, ...interface{}) {
 }
 
@@ -803,7 +803,11 @@ func (s *Sim) Apply(a Action) {
 	case "metrics":
 		name := TrialName(a.Key)
 		if s.hasTrial(name) {
-			if _, ok := s.db[name]; !ok {
+			// the first report creates the entry (with or without an objective value); a later report can only add the
+			// objective value to an entry that has none yet (metrics arrive progressively)
+			if e, ok := s.db[name]; !ok {
+				s.setDB(name, a.V)
+			} else if e.val == nil && a.V != nil {
 				s.setDB(name, a.V)
 			}
 		}
